@@ -1,0 +1,59 @@
+//! Verification hooks for osu!standard internals (`--cfg rosu_pp_verif`).
+
+use crate::{model::beatmap::Beatmap, Difficulty};
+
+use super::{
+    attributes::OsuDifficultyAttributes,
+    convert::convert_objects,
+    difficulty::scaling_factor::ScalingFactor,
+    object::{OsuObject, OsuObjectKind},
+};
+
+/// Per-object summary of what the counting code reads.
+#[derive(Copy, Clone, Debug, PartialEq, Eq)]
+pub struct OsuObjectSummary {
+    /// 0: circle, 1: slider, 2: spinner
+    pub kind: u8,
+    pub large_ticks: u32,
+    pub nested: u32,
+}
+
+fn summarize(h: &OsuObject) -> OsuObjectSummary {
+    match h.kind {
+        OsuObjectKind::Circle => OsuObjectSummary {
+            kind: 0,
+            large_ticks: 0,
+            nested: 0,
+        },
+        OsuObjectKind::Slider(ref slider) => OsuObjectSummary {
+            kind: 1,
+            large_ticks: slider.large_tick_count() as u32,
+            nested: slider.nested_objects.len() as u32,
+        },
+        OsuObjectKind::Spinner(_) => OsuObjectSummary {
+            kind: 2,
+            large_ticks: 0,
+            nested: 0,
+        },
+    }
+}
+
+/// Summaries of the osu! objects of an (already converted) osu! map.
+pub fn object_summaries(difficulty: &Difficulty, map: &Beatmap) -> Vec<OsuObjectSummary> {
+    let clock_rate = difficulty.get_clock_rate();
+    let map_attrs = map.attributes().difficulty(difficulty).build();
+    let scaling_factor = ScalingFactor::new(map_attrs.cs);
+    let time_preempt = f64::from((map_attrs.hit_windows.ar * clock_rate) as f32);
+    let mut attrs = OsuDifficultyAttributes::default();
+
+    let objects = convert_objects(
+        map,
+        &scaling_factor,
+        difficulty.get_mods().reflection(),
+        time_preempt,
+        0,
+        &mut attrs,
+    );
+
+    objects.iter().map(summarize).collect()
+}
